@@ -491,7 +491,13 @@ type popFile struct {
 	Age  int `json:"age"` // index into ages
 }
 
-var popKinds = []string{"00/<hexA>-a", "00/<hexB>-d", "00/README", "00/x-b", "00/hex-a.tmp", "README", "fuzz/f-a", "zz-a", "00/sub/k-a", "00/<hexC>-a (symbolic link, itself 30 days old, to a file outside the entry directories)", "00/<hexD>-d (symbolic link, likewise)"}
+var popKinds = []string{"00/<hexA>-a", "00/<hexB>-d", "00/README", "00/x-b", "00/hex-a.tmp", "README", "fuzz/f-a", "zz-a", "00/sub/k-a", "00/<hexC>-a (symbolic link, itself 30 days old, to a file outside the entry directories)", "00/<hexD>-d (symbolic link, likewise)",
+	// foreign names that look almost like entries (used alone and next to one real entry)
+	"00/-", "00/<hex>-", "00/<hex>-ad", "00/<hex>-da", "00/<hex>-A", "00/<hex>-a~", "00/<hex>-a (trailing blank)", "00/<hex>.a", "00/a", "00/d"}
+
+// pairKinds: the kinds that are combined freely; the look-alike names after them
+// appear alone and next to one real entry.
+const pairKinds = 11
 
 // linkTarget: kinds 9 and 10 are entries relocated to a store and linked back.
 // Lookups and stores refresh the file the link points to, so that file's age is
@@ -530,6 +536,14 @@ func popPath(kind int) string {
 		return "00/" + strings.Repeat("0c", 32) + "-a"
 	case 10:
 		return "00/" + strings.Repeat("0d", 32) + "-d"
+	case 11:
+		return "00/-"
+	case 12, 13, 14, 15, 16, 17, 18:
+		return "00/" + strings.Repeat("0e", 32) + []string{"-", "-ad", "-da", "-A", "-a~", "-a ", ".a"}[kind-12]
+	case 19:
+		return "00/a"
+	case 20:
+		return "00/d"
 	default:
 		return "00/sub/k-a"
 	}
@@ -889,7 +903,7 @@ func main() {
 	var pops []popCase
 	var rec func(start int, cur []popFile)
 	var allPF []popFile
-	for k := range popKinds {
+	for k := 0; k < pairKinds; k++ {
 		for a := range ages {
 			allPF = append(allPF, popFile{k, a})
 		}
@@ -927,6 +941,19 @@ func main() {
 		}
 	}
 	rec(0, nil)
+	// look-alike names: alone, and next to a real index entry of every age
+	for k := pairKinds; k < len(popKinds); k++ {
+		for a := range ages {
+			for _, tr := range reducedRecs {
+				pops = append(pops, popCase{[]popFile{{k, a}}, tr})
+				if boundaryAge[a] {
+					for ea := range ages {
+						pops = append(pops, popCase{[]popFile{{0, ea}, {k, a}}, tr})
+					}
+				}
+			}
+		}
+	}
 	var popDone int64
 	var next int64 = -1
 	var wg sync.WaitGroup
